@@ -380,3 +380,126 @@ def hooks_profile(seed):
 
 
 PROFILES["hooks"] = hooks_profile
+
+
+_COUNT_BASE = PROFILES["count"]
+
+
+def count_profile(seed):
+    """Random count scenarios, plus (every 3rd seed) a template: a worker dies and, before any periodic check has
+    seen it, a restart / reload / incr / decr / set arrives; then the daemon is left alone to converge."""
+    import random
+    if seed % 3 != 0:
+        return scenario.gen_scenario(seed, _COUNT_BASE)
+    rng = random.Random(seed)
+    ws = [{"name": "w1", "np": rng.choice([1, 2, 3]), "G": rng.choice([0.0, 0.1, 0.3]), "W": rng.choice([0.0, 0.1])}]
+    if rng.random() < 0.4:
+        ws.append({"name": "w2", "np": 1, "G": 0.1, "W": 0.0})
+    s = [{"op": "boot"}, {"op": "tick", "n": rng.randint(3, 9)}]
+    for _ in range(rng.randint(1, 3)):
+        for _ in range(rng.choice([1, 1, 2])):
+            s.append(rng.choice([{"op": "die", "sel": ["w1", rng.randint(0, 2)], "status": rng.choice(scenario.EXIT_STATUSES)},
+                                 {"op": "extkill", "sel": ["w1", rng.randint(0, 2)]}]))
+        cmd = rng.choice(["reload", "reload", "restart", "incr", "decr", "set_np", "reload_seq"])
+        if cmd == "reload":
+            props = {"name": "w1", "waiting": rng.random() < 0.5, "graceful": True, "sequential": False}
+        elif cmd == "reload_seq":
+            cmd, props = "reload", {"name": "w1", "waiting": True, "graceful": True, "sequential": True}
+        elif cmd == "set_np":
+            cmd, props = "set", {"name": "w1", "options": {"numprocesses": rng.choice([1, 2, 3])}}
+        elif cmd in ("incr", "decr"):
+            props = {"name": "w1", "nb": 1, "waiting": rng.random() < 0.5}
+        else:
+            props = {"name": "w1", "waiting": rng.random() < 0.5}
+        s.append({"op": "req", "cmd": cmd, "props": props})
+        s.append({"op": "tick", "n": rng.randint(2, 10)})
+    s.append({"op": "end", "xprobe": True, "passes": 3})
+    return {"seed": seed, "watchers": ws, "check_delay": rng.choice([0.5, 1.0]), "warmup_delay": 0.0,
+            "stubborn": ["w1"] if rng.random() < 0.2 else [], "obeys": [True], "instant_death": False, "script": s}
+
+
+PROFILES["count"] = count_profile
+
+
+_TERM_BASE = PROFILES["term"]
+_OVERLAP_BASE = PROFILES["overlap"]
+
+
+def term_profile(seed):
+    """Random termination scenarios, plus (every 3rd seed) a template: stubborn / obedient workers (with children when
+    stop_children is set), terminations of every cause with per-request overrides of signal and grace period."""
+    import random
+    if seed % 3 != 0:
+        return scenario.gen_scenario(seed, _TERM_BASE)
+    rng = random.Random(seed)
+    sch = rng.random() < 0.5
+    ws = [{"name": "w1", "np": rng.choice([1, 2]), "G": rng.choice([0.2, 0.3, 0.5, 0.8]), "W": 0.0, "stop_children": sch,
+           "stop_signal": rng.choice([scenario.SIGTERM, scenario.SIGINT, scenario.SIGQUIT])}]
+    s = [{"op": "boot"}, {"op": "tick", "n": rng.randint(2, 6)}]
+    if sch:
+        for _ in range(rng.randint(1, 2)):
+            s.append({"op": "fork", "sel": ["w1", rng.randint(0, 1)], "obeys": rng.random() < 0.5})
+    for _ in range(rng.randint(1, 3)):
+        c = rng.choice(["kill", "kill", "kill", "stop", "decr", "restart", "reload_seq"])
+        if c == "kill":
+            props = {"name": "w1", "waiting": rng.random() < 0.5}
+            if rng.random() < 0.8:
+                props["graceful_timeout"] = rng.choice([0, 0, 0.1, 0.2, 1.2])
+            if rng.random() < 0.4:
+                props["signum"] = rng.choice([scenario.SIGINT, "quit", "SIGUSR1", 0])
+            if rng.random() < 0.4:
+                props["pidsel"] = rng.randint(0, 2)
+            s.append({"op": "req", "cmd": "kill", "props": props})
+        elif c == "reload_seq":
+            s.append({"op": "req", "cmd": "reload", "props": {"name": "w1", "graceful": True, "sequential": True}})
+        else:
+            s.append({"op": "req", "cmd": c, "props": {"name": "w1", "waiting": rng.random() < 0.5}})
+        for _ in range(rng.randint(1, 4)):
+            s.append({"op": "tick", "n": rng.randint(1, 4)})
+            if rng.random() < 0.25:
+                s.append({"op": "die", "sel": ["w1", rng.randint(0, 2)], "status": rng.choice(scenario.EXIT_STATUSES)})
+    s.append({"op": "tick", "n": 14})
+    s.append({"op": "end", "xprobe": False, "passes": 1})
+    return {"seed": seed, "watchers": ws, "check_delay": 1.0, "warmup_delay": 0.0,
+            "stubborn": ["w1"] if rng.random() < 0.7 else [], "obeys": [True, False, True], "instant_death": rng.random() < 0.2,
+            "script": s}
+
+
+def overlap_profile(seed):
+    """Random overlapping requests, plus (every 3rd seed) a template measuring completion time: several stubborn workers,
+    a sizeable grace period, one exclusive operation (stop / restart / rm / quit / decr / reload), nothing else."""
+    import random
+    if seed % 3 != 0:
+        return scenario.gen_scenario(seed, _OVERLAP_BASE)
+    rng = random.Random(seed)
+    ws = [{"name": "w1", "np": rng.choice([2, 3, 4]), "G": rng.choice([0.3, 0.5, 1.0]), "W": rng.choice([0.0, 0.1])},
+          {"name": "w2", "np": rng.choice([1, 2]), "G": rng.choice([0.2, 0.5]), "W": 0.0}]
+    s = [{"op": "boot"}, {"op": "tick", "n": rng.randint(6, 12)}]
+    c = rng.choice(["stop", "stop", "restart", "rm", "quit", "stopall", "decr", "reload", "status"])
+    waiting = rng.random() < 0.6
+    if c in ("stop", "restart"):
+        s.append({"op": "req", "cmd": c, "props": {"name": "w1", "waiting": waiting}})
+    elif c == "rm":
+        s.append({"op": "req", "cmd": "rm", "props": {"name": "w1", "waiting": waiting}})
+    elif c == "quit":
+        s.append({"op": "req", "cmd": "quit", "props": {"waiting": False}})
+    elif c == "stopall":
+        s.append({"op": "req", "cmd": "stop", "props": {}})
+    elif c == "decr":
+        s.append({"op": "req", "cmd": "decr", "props": {"name": "w1", "nb": rng.choice([1, 2]), "waiting": waiting}})
+    elif c == "reload":
+        s.append({"op": "req", "cmd": "reload", "props": {"name": "w1", "graceful": True, "sequential": rng.random() < 0.5,
+                                                          "waiting": waiting}})
+    else:
+        s.append({"op": "req", "cmd": "status", "props": {"name": "w1"}})
+    for _ in range(40):
+        s.append({"op": "tick", "n": 1})
+        if rng.random() < 0.15:
+            s.append({"op": "req", "cmd": rng.choice(["status", "list", "numprocesses"]), "props": {"name": "w2"}})
+    s.append({"op": "end", "xprobe": False, "passes": 1})
+    return {"seed": seed, "watchers": ws, "check_delay": rng.choice([1.0, 2.0]), "warmup_delay": 0.0,
+            "stubborn": ["w1"] + (["w2"] if rng.random() < 0.5 else []), "obeys": [True], "instant_death": False, "script": s}
+
+
+PROFILES["term"] = term_profile
+PROFILES["overlap"] = overlap_profile
